@@ -27,13 +27,14 @@ def goFacts : GoFacts :=
     frameInClosure := true,
     wrapperFramePerCall := true,
     wrapperRecvBound := true,
+    wrapperLateRecv := "n.recv.node == nil",
     callBinGoArgsCopied := true,
     callBinGoArg := "copyDeferArg(getBinValue(getMapType, v, f))",
     callBinGoStmt := "go callFn(fn, in)",
     getFuncClones := true,
     getFuncAncIsClone := true,
     getFuncStoreLocked := true,
-    getFuncRestoreLocked := true,
+    getFuncNoDefFrameWrite := true,
     cloneLocked := true,
     cloneCopiesData := true,
     selectDoneLocked := true,
@@ -42,16 +43,19 @@ def goFacts : GoFacts :=
     callArgStores := ["dest[i] = genFunctionWrapper(nod)(f)", "dest[i].Set(val)", "vararg.Set(reflect.Append(vararg, v(f)))", "vararg.Set(v(f))"],
     frameCellInits := ["nf.data[i] = reflect.New(def.types[i]).Elem()", "nf.data[i] = v(f)", "nf.data[numRet+i] = reflect.New(t).Elem()"],
     goStmts := ["call: go callf(in)", "call: go runCfg(def.child[3].start, nf, def, n)"],
-    newFrameCalls := ["call: nf := newFrame(f, len(def.types), f.runid())", "genFunctionWrapper: fr := newFrame(f, len(def.types), f.runid())", "getFunc: fr2 := newFrame(fr, len(n.types), fr.runid())"] }
+    newFrameCalls := ["call: nf := newFrame(f, len(def.types), f.runid())", "genFunctionWrapper: fr := newCallFrame(f, len(def.types))", "getFunc: fr2 := newCallFrame(fr, len(n.types))"] }
 
 /-- fingerprints of the functions transcribed by Model/Conc.lean (`_select`, `clauseChanDir`) and
-    Model/ConcFrames.lean (`getFunc`, `frame.clone`, `newFrame`, `copyDeferArg`: reflect.New(t).Elem() + Set) -/
+    Model/ConcFrames.lean (`getFunc`, `frame.clone`, `newFrame`, `copyDeferArg`: reflect.New(t).Elem() + Set; `newCallFrame`: newFrame with the root's run id and done channel;
+    `genValueRecv`: a receiver without node is the constant `n.recv.val`, not a frame read) -/
 def sourceHashes : List (String × String) :=
   [("_select", "cd8dc2eaadeedc62"),
    ("clauseChanDir", "6fe26ead01991e91"),
-   ("getFunc", "e1777a5459c1a52e"),
+   ("getFunc", "767f1bf470b0d0fd"),
    ("frame.clone", "ccd71f62c6588b0a"),
    ("newFrame", "da1db819d5067f56"),
-   ("copyDeferArg", "d8586ba1ea695e54")]
+   ("copyDeferArg", "d8586ba1ea695e54"),
+   ("newCallFrame", "43aa5e7f13021a5b"),
+   ("genValueRecv", "a3dad7fc975e9eb7")]
 
 end YaegiVerif.Expected.C08
